@@ -115,7 +115,12 @@ class Ocp(Stage):
             self._transcribe_recurse(phase=1,**kwargs)
             self._original._set_transcribed(True)
 
-            self._transcribe_recurse(phase=2,placeholders=self.placeholders_transcribed,**kwargs)
+            try:
+                self._transcribe_recurse(phase=2,placeholders=self.placeholders_transcribed,**kwargs)
+            except:
+                # A half-finished transcription must not pass for a finished one
+                self._original._set_transcribed(False)
+                raise
     
     def _untranscribe(self,**kwargs):
         if self.is_transcribed:
